@@ -229,7 +229,8 @@ func (ex *Exec) callTrigger(fn *Function, t *Table, newVals, oldVals []Value) []
 		env.qualifiedOnly = append(env.qualifiedOnly, &binding{alias: "old", cols: t.colNames, row: oldVals})
 	}
 	fr := &plFrame{ex: ex, env: env, newB: newB}
-	ret := fr.runBlock(blk, "\x00trigger")
+	var ret Value
+	ex.withSchema(t.Schema, func() { ret = fr.runBlock(blk, "\x00trigger") })
 	if ret == nil {
 		return nil
 	}
@@ -371,8 +372,12 @@ func (fr *plFrame) runStmt(s plStmt) {
 					panic(r)
 				}
 			}()
+			limit := 1000000
+			if fr.ex.db.LoopLimit > 0 {
+				limit = fr.ex.db.LoopLimit
+			}
 			for i := 0; ; i++ {
-				if i > 1000000 {
+				if i > limit {
 					panic(errf("54000", "loop limit exceeded"))
 				}
 				fr.runStmts(n.Body)
